@@ -643,6 +643,10 @@ pub fn units(prop: &str, tier: Tier) -> Option<Vec<Unit>> {
                 class("klabel-deep-content", &en::k_label(), pick(5, 6)).alarm(ACC | VAL | PSP | PEX | PCX | EMC | EMI).unit(),
                 class("klabel-through-clone", &en::k_label(), pick(4, 5)).alarm(ACC | VAL | PSP | PEX | PCX | EMC | EMI).clone_mode().unit(),
                 class("klabelctx-deep-content", &en::k_labelctx(), pick(7, 8)).alarm(ACC | VAL | PSP | PEX | PCX | EMC | EMI).unit(),
+                e1("klabelemit-deep-content", format!("every Klabelemit grammar (validate / labelled / labelled.as_context / map_err over then / recover_with; nothing above backtracks) with <= {} nodes that has an emitter below an as_context label: the complete error list, with context frames, also when the labelled parser fails after the emission", pick(6, 7)), en::k_labelemit().upto(pick(6, 7)).into_iter().filter(|g| g.any_node(&|x| matches!(x, Labelled(a, true) if a.any_node(&|y| matches!(y, Validate(..) | Recover(..)))))).collect())
+                    .alpha(&['a', 'b'], pick(3, 4))
+                    .alarm(ACC | VAL | PSP | PEX | PCX | EMC | EMI | EMF)
+                    .unit(),
                 e1("kmaperr-deep-content", format!("every Kmaperr grammar (map_err / try_map / or_not / labelled.as_context over then / or) with <= {} nodes that contains map_err", pick(7, 8)), en::k_maperr().upto(pick(7, 8)).into_iter().filter(|g| g.any_node(&|x| matches!(x, MapErr(_)))).collect())
                     .alpha(&['a', 'b'], pick(3, 4))
                     .alarm(ACC | VAL | PSP | PEX | PCX | EMC | EMI)
